@@ -14,6 +14,7 @@
 package main
 
 import (
+	"math"
 	"context"
 	"encoding/json"
 	"fmt"
@@ -78,7 +79,8 @@ func sameBytes(a, b interface{}) bool {
 // sort / window / distinct
 
 var sortVals = []interface{}{int32(1), int32(2), int64(2), float64(2), int32(3), float64(1.5), "a", "b", nil, true,
-	bson.A{int32(1), int32(3)}, bson.A{int32(2)}, bson.A{int32(3), int32(0)}, bson.A{"a", int32(2)}, bson.A{int64(2), float64(2)}}
+	bson.A{int32(1), int32(3)}, bson.A{int32(2)}, bson.A{int32(3), int32(0)}, bson.A{"a", int32(2)}, bson.A{int64(2), float64(2)},
+	math.NaN(), math.NaN(), math.Inf(1), math.Inf(-1), math.Copysign(0, -1), int32(0)} // NaN sorts below every number and ties with itself
 
 func sortDoc(g *gen.G, id int) bson.D {
 	d := bson.D{{Key: "_id", Value: int32(id)}}
@@ -93,7 +95,10 @@ func sortDoc(g *gen.G, id int) bson.D {
 			if g.P(50) {
 				d = append(d, bson.E{Key: k, Value: bson.A{}})
 			} else {
-				d = append(d, bson.E{Key: k, Value: bson.A{bson.D{{Key: "b", Value: int32(1)}}, bson.D{{Key: "b", Value: int32(3)}}}})
+				d = append(d, bson.E{Key: k, Value: g.Pick(bson.A{bson.D{{Key: "b", Value: int32(1)}}, bson.D{{Key: "b", Value: int32(3)}}},
+					// leaf arrays below an array of sub-documents: distinct unwinds them as well
+					bson.A{bson.D{{Key: "b", Value: bson.A{int32(1), int32(2)}}}, bson.D{{Key: "b", Value: bson.A{int32(2), int32(3)}}}},
+					bson.A{bson.D{{Key: "b", Value: bson.A{"x"}}}, bson.D{{Key: "b", Value: "x"}}, bson.D{{Key: "c", Value: int32(1)}}})})
 			}
 		}
 	}
